@@ -116,6 +116,8 @@ pub struct DiskState {
     pub eintr_run: u32,
     pub frame_sized_transfers: u64,
     pub faults_in_run: u64,
+    /// when set, every handle opened on this disk uses these benign fault rates
+    pub force_benign: Option<Benign>,
 }
 
 #[derive(Clone)]
@@ -141,6 +143,7 @@ impl Disk {
             eintr_run: 0,
             frame_sized_transfers: 0,
             faults_in_run: 0,
+            force_benign: None,
         })))
     }
     pub fn create(&self, data: Vec<u8>) -> usize {
@@ -148,7 +151,11 @@ impl Disk {
         d.files.push(data);
         d.files.len() - 1
     }
+    pub fn force_benign(&self, b: Option<Benign>) {
+        self.0.borrow_mut().force_benign = b;
+    }
     pub fn open(&self, file: usize, benign: Benign) -> SimFile {
+        let benign = self.0.borrow().force_benign.unwrap_or(benign);
         SimFile {
             disk: self.clone(),
             file,
